@@ -116,12 +116,15 @@ def gen_case(rng, nmax=40, estimators=ESTIMATORS, binnings=BINNINGS, allow_spars
         form = 'custom'
     case = dict(coords=coords.tolist(), values=values.tolist(), kw=kw, storage=storage, dim=dim,
                 kind=kind, maxlag_form=form, dtype=dtype)
+    # integer-valued coordinates (lattices, raster indices) may arrive as (unsigned) integer arrays
+    if np.all(coords == np.round(coords)) and np.all(coords >= 0) and np.all(coords < 30000) and rng.random() < 0.4:
+        case['coord_dtype'] = str(rng.choice(['int64', 'int32', 'uint16', 'uint32']))
     return case
 
 
 def build(case, **extra):
     """construct the real Variogram for a case (fit disabled unless requested)"""
-    coords = np.array(case['coords'], dtype=float)
+    coords = np.array(case['coords'], dtype=float).astype(case.get('coord_dtype', 'float64'))
     if case.get('dim', coords.ndim) == 1 and coords.ndim == 2 and coords.shape[1] == 1:
         coords = coords[:, 0]
     values = np.array(case['values'], dtype=float).astype(case.get('dtype', 'float64'))
